@@ -77,7 +77,10 @@ def gen_fmt(rng, fields, has_enum, allow_hidden=True):
                 visible += 1
             elif r < 0.65:
                 a = rng.randint(0, 8)
-                c += f":{a}-{a + rng.randint(0, 14)}"
+                b = a + rng.randint(0, 14)
+                if rng.random() < 0.06:
+                    a, b = b, a          # a reversed range: accepted today (the column gets the second bound)
+                c += f":{a}-{b}"
                 visible += 1
             elif r < 0.72 and allow_hidden and visible:
                 c += ":-1"
